@@ -24,9 +24,9 @@ META["C03"] = {
   "note": "Trusted: as C01; predict's precondition is a sub-conjunction of fit's proven postcondition (C01); termination of mark_nodes not proved.",
   "technique": TECH}
 META["C15"] = {
-  "text": "SemiSupervisedOPF.fit is under contract with the same invariants as C01 over labelled + unlabeled nodes; the call to _find_prototypes is checked in the state where only labelled nodes exist; the append loop is verified (fresh Node per unlabeled row, Node.__init__ inlined); prototypes are labelled samples and keep their true label; all obligations discharged. The empty-unlabeled clause is checked relationally on the real code in the bounded channel only.",
-  "design_ref": "DESIGN.md §3 C15",
-  "note": "Trusted: as C01. Bounded only: equality with supervised training for an empty unlabeled set.",
+  "text": "SemiSupervisedOPF.fit is under contract with the same invariants as C01 over labelled + unlabeled nodes; the call to _find_prototypes is checked in the state where only labelled nodes exist; the append loop is verified (fresh Node per unlabeled row, Node.__init__ inlined); prototypes are labelled samples and keep their true label; all obligations discharged. The empty-unlabeled clause is a relational obligation decided by mechanical statement alignment of the two real fit bodies (item static:semi_equals_supervised: minus the zero-trip append loop, its counter and the `label` stores, the semi-supervised body is statement-for-statement the supervised one, and nothing that runs afterwards reads what was removed), and is compared on the real code in the run-time channel as well.",
+  "design_ref": "DESIGN.md §3 C15, §7.10",
+  "note": "Trusted: as C01. The meta-argument of the alignment obligation (same statements on states equal up to unread fields give equal results) is by inspection.",
   "technique": TECH}
 META["C13"] = {
   "text": "Both density-clustering routines (UnsupervisedOPF._clustering, KNNSupervisedOPF._clustering) and propagate_labels are under contract; the competition-loop invariants K0-K8 (removed nodes final, predecessor removed earlier and adjacent, cost = min(cost(pred), density) > density - 1, root pointer = root of predecessor and points at a node without predecessor, cost <= cost(root), cluster identifiers in bijection with the removed roots via a ghost map, conquest order = inverse of a ghost rank) are inductive; all obligations generated from the real source (including the symmetrisation loops that edit the adjacency lists, index safety and every property setter) are discharged for all sample sets, k and tie patterns. The postcondition is the property statement; KNN clustering with force_prototype additionally yields every sample its own label (used by C04).",
